@@ -36,6 +36,7 @@ from emir.models import two_way, deref
 from . import common
 
 KF_ABANDONED = 'C14/env_guards/generator-abandoned-inside-block-scope'
+KF_ITER = 'C14/root_guard/collection-iterator-methods'
 KF_SCOPE_EXIT = 'C14/env_guards/frame-left-with-open-block-scopes'
 
 PROGRAMS = [
@@ -56,6 +57,11 @@ PROGRAMS = [
     ('function inner(){ { let a = 1; throw new Error("x") } } function mid(){ return inner() } try { mid() } catch (e) {} 1', 'C14/call-error/leak'),
     ('function f(){ while (true) { let q = 1; break } return 1 } f(); 1', KF_SCOPE_EXIT),
     ('class A { m(){ { let a = 1; return a } } } new A().m(); 1', KF_SCOPE_EXIT),
+    # explicit collection iterators: next / [Symbol.iterator] are built with create_native_function, i.e. on root_guard (known finding)
+    ('(function(){ const it = [1,2,3].values(); it.next(); })(); 1', KF_ITER),
+    ('const m = new Map([[1,2]]); for (const e of m.entries()) {} 1', KF_ITER),
+    ('[...new Set([1,2])].length', KF_ITER),
+    ('for (const x of [1,2,3]) {} 1', 'C14/for-of-array/leak'),
 ]
 
 PRIMS = {'Interpreter::push_env_guard': 'push', 'Interpreter::pop_env_guard': 'pop', 'Interpreter::push_scope': 'spush', 'Interpreter::pop_scope': 'spop'}
@@ -210,7 +216,7 @@ def find_result(v, ty, depth=0, st=None):
 def report_bad(rep, key, meth, msg, detail):
     outs = driver.replay([{'cmd': 'gc_repeat', 'src': s, 'times': 6} for s, _ in PROGRAMS])
     rep.validated += len(outs)
-    growing = [(s, o['live']) for (s, k), o in zip(PROGRAMS, outs) if o['live'][-1] > o['live'][1] and k != KF_ABANDONED]
+    growing = [(s, o['live']) for (s, k), o in zip(PROGRAMS, outs) if o['live'][-1] > o['live'][1] and k not in (KF_ABANDONED, KF_ITER)]
     detail = dict(detail)
     detail['programs_with_growing_heap'] = growing
     p = rep.write_replay('ledger-%s' % meth, detail)
